@@ -47,6 +47,12 @@ CLAIMED = {
                      "write and at seeded offsets inside each) that the completion marker implies a complete event file; the same implication under ENOSPC/EIO; refused lines leave no event record; no crash, "
                      "sanitizer report or libstdc++ assertion.",
                 note="Kill points are enumerated exhaustively per explored run (fault_enumeration); the command-line space is sampled. fsync/rename-style durability is out of scope: the program does not use them and the property does not ask."),
+    "C12": dict(level="exploration", ref="DESIGN.md section 3 (C12)", replay_flavour="asan",
+                technique="deterministic simulation of thread schedules: real threads parked on futexes and released one at a time by a seeded scheduler at intercepted GSL/mutex/deviate points, injected quadrature tolerance misses, history checked by vector-clock race detection, solo-run equivalence and a TSan-invisible hand-off that lets ThreadSanitizer report logical races",
+                text="2-3 clients with their own generators run on real threads whose interleaving is decided by the plan (preemptions biased into the GSL error-handler save/disable..restore window), "
+                     "with real and injected quadrature tolerance misses. Checked on the recorded history: the application's base GSL handler is never invoked during a quadrature (no schedule-dependent abort), "
+                     "each client's events equal its solo run bit for bit, no happens-before race on the process-wide handler, no ThreadSanitizer report in the tsan flavour, no deadlock. Every violation replays from its plan.",
+                note="Schedules are sampled; schedule points are the intercepted GSL, pthread-mutex and deviate calls. TSan cannot see inside libgsl: the handler variable is shadowed. A blocking primitive other than a pthread mutex would show as a harness stall (exit 2)."),
 }
 
 NOT_APPLICABLE = {
